@@ -47,6 +47,26 @@ def chain_am(asyncs_all=False, with_listener=True, with_model=False, drop=(), va
     return am
 
 
+def guards_am(asyncs_all=False, with_listener=True):
+    """Second template (thorough tiers): C01's T-guards machine (4 states incl. a final one, three candidates on (a, go),
+    a transition bound to two events, internal transitions, cond + unless + expression guards, two validators) with
+    the generic action callbacks on the machine and, optionally, a listener."""
+    from harness.c01 import t_guards_am
+
+    am = t_guards_am([])
+    am["methods"]["machine"] = am["methods"]["machine"] + ["before_transition", "on_exit_state", "on_transition", "on_enter_state", "after_transition"]
+    if with_listener:
+        am["methods"]["listener0"] = ["on_transition", "after_transition", "on_enter_c"]
+    am["async"] = [[p, n] for p, ns in am["methods"].items() for n in ns if n not in ("e2a", "e2b")] if asyncs_all else []
+    return am
+
+
+TEMPLATES = {
+    "chain": {"states": STATES, "events": EVENTS},
+    "guards": {"states": ["a", "b", "c", "d"], "events": ["go", "go_back", "hop"]},
+}
+
+
 def lib_root():
     import statemachine
 
@@ -78,8 +98,13 @@ def frame_check(ctx, sm, tag):
 def run_history(ctx, params, script_kw, prop, class_name):
     """params: engine, rtc, allow, s0 (0..2 state index, 3 = from construction), calls, events (ids)."""
     is_async = params["engine"] != "sync"
-    am = chain_am(asyncs_all=is_async, with_listener=params.get("listener", True), with_model=params.get("model", False),
-                  drop=params.get("drop", ()))
+    template = params.get("template", "chain")
+    if template == "guards":
+        am = guards_am(asyncs_all=is_async, with_listener=params.get("listener", True))
+    else:
+        am = chain_am(asyncs_all=is_async, with_listener=params.get("listener", True), with_model=params.get("model", False),
+                      drop=params.get("drop", ()))
+    t_states, t_events = TEMPLATES[template]["states"], TEMPLATES[template]["events"]
     r, script, model, listeners = build(ctx, am, params, script_kw, class_name)
     if params.get("base_exception"):
         script.raise_base_exception = True
@@ -88,7 +113,7 @@ def run_history(ctx, params, script_kw, prop, class_name):
     rtc, allow = params["rtc"], params["allow"]
     kw = {"rtc": rtc, "allow_event_without_transition": allow, "listeners": listeners}
     tag = f"{params['engine']}:rtc={rtc}"
-    events = params.get("events", EVENTS)
+    events = params.get("events", t_events)
     history = []
     pending_initial = False
     if params["s0"] == 3:
@@ -118,10 +143,10 @@ def run_history(ctx, params, script_kw, prop, class_name):
             sm = r["cls"](model, **kw)
             if is_async:
                 sm.activate_initial_state()
-            sm.current_state_value = STATES[params["s0"]]
+            sm.current_state_value = t_states[params["s0"]]
             script.muted = False
             script.sm = sm
-        cur = STATES[params["s0"]]
+        cur = t_states[params["s0"]]
     for k in range(params["calls"]):
         ev = events[ctx.choose(len(events), f"call{k}")]
         next_call(script, k)
